@@ -303,7 +303,7 @@ def gpg_entry(k: Key, data: bytes, hdr: bytes, see_also: str | None = None) -> d
 ENTRY_STATES = [
     "absent", "raw_valid", "raw_valid_gpg_shape", "gpg_valid", "gpg_valid_see_also", "other_payload", "misfiled",
     "bitflip", "truncated", "upper_sig", "extra_field", "nondict", "alt_upper", "alt_space", "alt_0x",
-    "alt_inner_space", "alt_nonascii_digit", "gpg_bad_header", "gpg_other_payload", "gpg_bad_see_also",
+    "alt_inner_space", "alt_nonascii_digit", "alt_mixed_case", "gpg_bad_header", "gpg_other_payload", "gpg_bad_see_also",
     "gpg_empty_header", "zero_sig",
 ]
 
@@ -355,6 +355,11 @@ def make_entry(rng, state: str, k: Key, data: bytes, gpg: bool, other: Key):
         if kk == k.hex:
             return None
         return kk, valid
+    if state == "alt_mixed_case":
+        kk = mixed_case(k.hex)
+        if kk == k.hex:
+            return None
+        return kk, valid
     if state == "alt_space":
         return rng.choice([" " + k.hex, k.hex + " ", k.hex + "\n", "\t" + k.hex]), valid
     if state == "alt_0x":
@@ -381,6 +386,22 @@ def make_entry(rng, state: str, k: Key, data: bytes, gpg: bool, other: Key):
     if state == "zero_sig":
         return k.hex, {"signature": "00" * 64} if not gpg else {"other_headers": hdr.hex(), "signature": "00" * 64}
     raise ValueError(state)
+
+
+def mixed_case(h: str) -> str:
+    """a spelling with at least one upper-case and one lower-case hex letter (when the string has two letters)"""
+    out, flip = [], True
+    for c in h:
+        if c in "abcdef":
+            out.append(c.upper() if flip else c)
+            flip = not flip
+        else:
+            out.append(c)
+    return "".join(out)
+
+
+def alt_spellings(h: str) -> list:
+    return [mixed_case(h), h.upper(), " " + h, h + "\n", "0x" + h, h[:32] + " " + h[32:]]
 
 
 def junk_entry(rng):
